@@ -44,6 +44,10 @@ pub struct Case {
     pub cols: Vec<ColDef>,
     pub ops: Vec<Op>,
     pub probes: Vec<Probe>,
+    /// `budget` part: RelationalConfig::max_btree_entries of the engine (distinct ordered-index
+    /// keys it may hold); statements that would exceed it are refused with ResultTooLarge
+    #[serde(default)]
+    pub budget: Option<u8>,
 }
 
 // ------------------------------------------------------------------ value pools
@@ -262,7 +266,61 @@ pub fn case_strategy(max_ops: usize) -> BoxedStrategy<Case> {
             let probes = prop::collection::vec(probe(&cols), 3..=8);
             (Just(cols), ops, probes)
         })
-        .prop_map(|(cols, ops, probes)| Case { cols, ops, probes })
+        .prop_map(|(cols, ops, probes)| Case { cols, ops, probes, budget: None })
+        .boxed()
+}
+
+/// The `budget` part: the same operation sequences against an engine that may hold only 1..=6
+/// distinct ordered-index keys, with an ordered index created early. Statements are then refused
+/// half-way (ResultTooLarge); whatever a refused statement leaves behind, index reads and scans
+/// must still agree. SQL-text statements go through the API here (the refusal is an API error).
+pub fn budget_strategy() -> BoxedStrategy<Case> {
+    (case_strategy(30), 1u8..=6, any::<u8>(), any::<u8>())
+        .prop_map(|(mut c, b, sel, at)| {
+            c.budget = Some(b);
+            let col = Col::C(sel % c.cols.len() as u8);
+            let mut ops: Vec<Op> = c
+                .ops
+                .drain(..)
+                .map(|o| match o {
+                    Op::TextDml(d) => Op::Dml(d),
+                    o => o,
+                })
+                .collect();
+            // half of the cases index the empty table (the build cannot be refused then, the
+            // budget fills up with the rows that follow)
+            let pos = if at & 1 == 1 { 0 } else { (at as usize * (ops.len() / 2 + 1)) >> 8 };
+            ops.insert(pos, Op::CreateBtree(col));
+            // runs of consecutive single statements become one explicit transaction (two in
+            // three rolled back): a refused statement is then followed by more statements of
+            // the same transaction and by the replay of its undo log
+            let mut grouped: Vec<Op> = Vec::with_capacity(ops.len());
+            let mut run: Vec<Dml> = Vec::new();
+            let mut groups = 0usize;
+            let mut flush = |run: &mut Vec<Dml>, grouped: &mut Vec<Op>| {
+                match run.len() {
+                    0 => {},
+                    1 => grouped.push(Op::Dml(run.pop().unwrap())),
+                    _ => {
+                        groups += 1;
+                        grouped.push(Op::Tx { steps: std::mem::take(run), commit: (groups + at as usize) % 3 == 0 });
+                    },
+                }
+            };
+            for o in ops {
+                match o {
+                    Op::Dml(d) if sel & 0x80 != 0 => run.push(d),
+                    o => {
+                        flush(&mut run, &mut grouped);
+                        grouped.push(o);
+                    },
+                }
+            }
+            flush(&mut run, &mut grouped);
+            let ops = grouped;
+            c.ops = ops;
+            c
+        })
         .boxed()
 }
 
@@ -287,7 +345,7 @@ impl BigCase {
         let rows: Vec<Vec<V>> = (0..self.n as usize).map(|i| self.base[(i * step + i / k) % k].clone()).collect();
         let mut ops = vec![Op::BatchInsert { rows, omit_nulls: self.omit_nulls }];
         ops.extend(self.ops.iter().cloned());
-        Case { cols: self.cols.clone(), ops, probes: self.probes.clone() }
+        Case { cols: self.cols.clone(), ops, probes: self.probes.clone(), budget: None }
     }
 }
 
